@@ -25,6 +25,9 @@ def run(ctx, crate):
     K.rule_no_unsafe(ctx, crate)
     edges, sc = Lg.run_ledger(ctx, crate, "C14", "R-RENDER-LEDGER", ENTRIES, floor_edges=40)
     rule_table_invariants(ctx, crate, edges)
+    # the guard establishes char_width != 0 for the cached value; the cache itself must describe the installed table
+    from .c13 import rule_char_width_coherent
+    rule_char_width_coherent(ctx, crate)
 
 
 def requirements_from(edges):
